@@ -275,7 +275,7 @@ def close_propagation(ctx, rng):
             pass  # k = 0: read to the end, then close()
         closed[variant] = (marks.get("closed", 0), r.exc)
         # the same (wrapped) application object answers further requests afterwards: each one complete and its own
-        for follow in range(2):
+        for follow in range(2 if variant == "bare" else 25):  # (many: an identity kept from the abandoned request may be met again only now and then)
             marks.clear()
             r2 = drivers.run_wsgi(app, drivers.to_environ(drivers.Req(path=b"/follow%d" % follow)))
             if r2.exc is not None or r2.body != b"".join(b"c%d" % i for i in range(n)) or marks.get("invoked") != 1:
